@@ -198,7 +198,56 @@ def fact_of(atom: ast.AST, pol: bool) -> Fact:
     return Fact("truthy", atom, None, pol, atom)
 
 
+def expr_context_facts(site: ast.AST) -> list[Fact]:
+    """Facts implied by short-circuit evaluation around an expression (a and SITE, c if t else SITE, ...)."""
+    from .model import parent
+    out: list[Fact] = []
+    cur = site
+    p = parent(cur)
+    while p is not None and isinstance(p, ast.expr):
+        if isinstance(p, ast.BoolOp):
+            idx = next((i for i, v in enumerate(p.values) if v is cur), None)
+            if idx:
+                for v in p.values[:idx]:
+                    out.extend(_atoms_with_polarity(v, isinstance(p.op, ast.And)))
+        elif isinstance(p, ast.IfExp):
+            if cur is p.body:
+                out.extend(_atoms_with_polarity(p.test, True))
+            elif cur is p.orelse:
+                out.extend(_atoms_with_polarity(p.test, False))
+        elif isinstance(p, (ast.Lambda, ast.ListComp, ast.SetComp, ast.DictComp, ast.GeneratorExp)):
+            break
+        cur, p = p, parent(p)
+    return out
+
+
+def _atoms_with_polarity(e: ast.AST, pol: bool) -> list[Fact]:
+    """e is known to be truthy (pol) / falsy (not pol): split into atom facts where that is sound."""
+    if isinstance(e, ast.UnaryOp) and isinstance(e.op, ast.Not):
+        return _atoms_with_polarity(e.operand, not pol)
+    if isinstance(e, ast.BoolOp):
+        if isinstance(e.op, ast.And) and pol:
+            return [f for v in e.values for f in _atoms_with_polarity(v, True)]
+        if isinstance(e.op, ast.Or) and not pol:
+            return [f for v in e.values for f in _atoms_with_polarity(v, False)]
+        return []
+    if isinstance(e, ast.Compare) and len(e.ops) > 1 and pol:
+        # a <= b <= c  truthy  =>  both links hold
+        out = []
+        left = e.left
+        for op, right in zip(e.ops, e.comparators):
+            out.append(fact_of(ast.Compare(left=left, ops=[op], comparators=[right]), True))
+            left = right
+        return out
+    return [fact_of(e, pol)]
+
+
 def facts_at(cfg: CFG, site: ast.AST | Node) -> list[Fact]:
+    extra = [] if isinstance(site, Node) else expr_context_facts(site)
+    return extra + _cfg_facts_at(cfg, site)
+
+
+def _cfg_facts_at(cfg: CFG, site: ast.AST | Node) -> list[Fact]:
     nodes = [site] if isinstance(site, Node) else cfg.nodes_for(site)
     if not nodes:
         return []
